@@ -234,6 +234,14 @@ class Future:
         if self.owner is not None and self.member:
             self.owner.pending = self.owner.pending - 1
 
+    def cancel(self, msg=None):
+        if not self.pending:
+            return False
+        self.pending = False
+        if self.owner is not None and self.member:
+            self.owner.pending = self.owner.pending - 1
+        return True
+
     def add_done_callback(self, callback):
         require(self.cb is None, "model limit: one done callback per future")
         self.cb = callback
@@ -774,3 +782,131 @@ class aclosing:
     async def __aexit__(self, et, ev, tb):
         await self.thing.aclose()
         return False
+
+
+class AsyncQueue:
+    """asyncio.Queue (unbounded, FIFO) holding opaque items or the `None` sentinel.  `items` / `nones` are parallel
+    sequences (the value, and a non-zero flag where the entry is the None sentinel).  Ghost: `taken` / `taken_nones` record, in order,
+    every entry that was dequeued.  get() suspends only while the queue is empty (other tasks and protocol callbacks run:
+    rely of the function under verification) and, like asyncio's, dequeues nothing when the wait is cancelled."""
+
+    def __init__(self, maxsize=0):
+        self.items = empty_seq("objseq")
+        self.nones = b""
+        self.taken = empty_seq("objseq")
+        self.taken_nones = b""
+
+    def put_nowait(self, item):
+        if item is None:
+            self.items = self.items + unit(nondet_obj())
+            self.nones = self.nones + b"\x01"
+        else:
+            if isinstance(item, tuple):
+                item = fn("pair", "obj", item[0], item[1])
+            self.items = self.items + unit(item)
+            self.nones = self.nones + b"\x00"
+
+    def get_nowait(self):
+        if len(self.nones) == 0:
+            raise asyncio.QueueEmpty
+        h = self.items[0]
+        hn = self.nones[0]
+        self.taken = self.taken + unit(h)
+        self.taken_nones = self.taken_nones + self.nones[:1]
+        self.items = self.items[1:]
+        self.nones = self.nones[1:]
+        if hn != 0:
+            return None
+        return h
+
+    async def get(self):
+        if len(self.nones) == 0:
+            suspend_point(self)
+            assume(len(self.nones) >= 1)
+        return self.get_nowait()
+
+
+class ExceptionQueue:
+    """asyncio.Queue of exceptions reported by the event loop (error_received / connection_lost): `n` entries."""
+
+    def __init__(self, maxsize=0):
+        self.n = 0
+
+    def put_nowait(self, exc):
+        self.n = self.n + 1
+
+    def get_nowait(self):
+        if self.n == 0:
+            raise asyncio.QueueEmpty
+        self.n = self.n - 1
+        if nondet_bool():
+            return OSError(nondet_int(), "reported by the event loop")
+        return RuntimeError("reported by the event loop")
+
+
+class PairDeque:
+    """collections.deque of (datagram, address) pairs: `datas` / `addrs` are the parallel sequences of the components."""
+
+    def __init__(self, iterable=()):
+        self.datas = seq_of(())
+        self.addrs = empty_seq("objseq")
+
+    def __len__(self):
+        return len(self.datas)
+
+    def append(self, pair):
+        self.datas = self.datas + unit(pair[0])
+        self.addrs = self.addrs + unit(pair[1])
+
+    def popleft(self):
+        if len(self.datas) == 0:
+            raise IndexError
+        d = self.datas[0]
+        a = self.addrs[0]
+        self.datas = tail(self.datas)
+        self.addrs = self.addrs[1:]
+        return (d, a)
+
+    def clear(self):
+        self.datas = seq_of(())
+        self.addrs = empty_seq("objseq")
+
+    def __model_len__(self):
+        return len(self.datas)
+
+    def __model_iter_start__(self):
+        return None
+
+    def __model_item__(self, i):
+        return (self.datas[i], self.addrs[i])
+
+
+class DatagramTaskGroup:
+    """The task group the datagram listener starts one handler task per datagram in.  Ghost: ghost.DGH / ghost.DGH_ADDR =
+    the datagrams (and their senders) for which a handler task was started, in order."""
+
+    def start_soon(self, coro_func, *args):
+        ghost.DGH = ghost.DGH + unit(args[0])
+        ghost.DGH_ADDR = ghost.DGH_ADDR + unit(args[1])
+        return None
+
+
+def shield(awaitable):
+    """asyncio.shield(fut) as the adapters use it: awaiting the result is awaiting the future, except that a cancellation of
+    the awaiting task does not cancel the inner future."""
+    return ShieldedFuture(awaitable)
+
+
+class ShieldedFuture:
+    def __init__(self, fut):
+        self.fut = fut
+
+    def __model_await__(self):
+        if self.fut.pending:
+            suspend_point(self)
+            assume(not self.fut.pending)
+        if self.fut.exception_set:
+            raise_any(Exception)
+        if not self.fut.result_set:
+            raise asyncio.CancelledError
+        return self.fut.value
